@@ -85,6 +85,11 @@ type Tunnel struct {
 	// Incoming requests
 	inbound chan cemi.Message
 
+	// Messages that could not be handed to the client at once, in order of acceptance.
+	overflowMu sync.Mutex
+	overflow   []cemi.Message
+	flushing   bool
+
 	// Goroutine controller
 	done chan struct{}
 	once sync.Once
@@ -368,20 +373,53 @@ func (conn *Tunnel) handleDiscRes(res *knxnet.DiscRes) error {
 	return nil
 }
 
-// pushInbound sends the message through the inbound channel. If the sending blocks, it will launch
-// a goroutine which will do the sending.
+// pushInbound sends the message through the inbound channel without blocking the caller. A message
+// that cannot be handed over at once is appended to an overflow queue, which a single goroutine
+// drains in order; later messages queue up behind it, so the order of acceptance is preserved.
 func (conn *Tunnel) pushInbound(msg cemi.Message) {
-	select {
-	case conn.inbound <- msg:
+	conn.overflowMu.Lock()
+	defer conn.overflowMu.Unlock()
 
-	default:
-		go func() {
-			// Since this goroutine decouples from the server goroutine, it might try to send when
-			// the server closed the inbound channel. Sending to a closed channel will panic. But we
-			// don't care, because cool guys don't look at explosions.
-			defer func() { recover() }()
-			conn.inbound <- msg
-		}()
+	// Only hand over directly if nothing is waiting in front of this message.
+	if len(conn.overflow) == 0 {
+		select {
+		case conn.inbound <- msg:
+			return
+
+		default:
+		}
+	}
+
+	conn.overflow = append(conn.overflow, msg)
+
+	if !conn.flushing {
+		conn.flushing = true
+		go conn.flushInbound()
+	}
+}
+
+// flushInbound hands the queued messages to the client in order and exits once the queue is empty.
+func (conn *Tunnel) flushInbound() {
+	// Since this goroutine decouples from the server goroutine, it might try to send when the server
+	// closed the inbound channel. Sending to a closed channel will panic. But we don't care, because
+	// cool guys don't look at explosions.
+	defer func() { recover() }()
+
+	for {
+		conn.overflowMu.Lock()
+		if len(conn.overflow) == 0 {
+			conn.flushing = false
+			conn.overflowMu.Unlock()
+			return
+		}
+		msg := conn.overflow[0]
+		conn.overflowMu.Unlock()
+
+		conn.inbound <- msg
+
+		conn.overflowMu.Lock()
+		conn.overflow = conn.overflow[1:]
+		conn.overflowMu.Unlock()
 	}
 }
 
